@@ -94,7 +94,7 @@ pub fn spec(id: &str) -> Spec {
             rule: "functions built through FunctionBuilder: 0-4 params/results, 0-5 locals of numeric / v128 / reference types added before and between                    instructions, 2-10 statements issued through the Opcode/MacroOpcode helpers (arithmetic, comparisons, conversions, locals, select,                    blocks/loops/ifs with br_if, loads/stores, u32_const/u64_const), optional set_name; finish_module interleaved with other function edits",
         },
         "C14" => Spec {
-            alphabet: A_FUNC | A_LOCALS | A_RICH | A_ADD | A_INJECT,
+            alphabet: A_FUNC | A_LOCALS | A_RICH | A_ADD | A_INJECT | A_REPLACE_IMPORT,
             max_len: 10,
             want_names: false,
             only_names: false,
